@@ -383,6 +383,9 @@ func mergeRoots(
 
 			newTree, err := tree.Clone(ctx)
 			if err != nil {
+				if !skipUnreadable {
+					return nil, nil, 0, fmt.Errorf("clone: %w", err)
+				}
 				if cfg.LogFunc != nil && skipUnreadable {
 					cfg.LogFunc(fmt.Sprintf("skipping merge un-cloneable tree %v: %v", key, err))
 				}
